@@ -52,6 +52,44 @@ for _i in range(nodes.N_TERM):
     globals()[f"C{_i}"] = _mk_c(_i)
 
 
+class _NoTruth:
+    """what `==` of array-like data returns: something without a truth value"""
+
+    def __bool__(self):
+        raise ValueError("The truth value of an array with more than one element is ambiguous")
+
+
+class ArrTuple(tuple):
+    """a term that behaves like a numpy array / DataFrame under `==`: comparing two DIFFERENT objects gives no
+    yes/no answer (python's containers only get by while they hold the very same object: identity is tried first)"""
+
+    def __eq__(self, other):
+        return _NoTruth()
+
+    def __ne__(self, other):
+        return _NoTruth()
+
+    __hash__ = tuple.__hash__
+
+
+def _mk_a(i):
+    def fn(a="d", b="d", c="d"):
+        nodes._record(i, a, b, c)
+        r = ArrTuple((f"f{i}", a, b, c))
+        return r
+
+    fn.__name__ = f"A{i}"
+    fn.__qualname__ = f"A{i}"
+    fn.__module__ = __name__
+    from pyiron_workflow import as_function_node
+
+    return as_function_node("o", validate_output_labels=False)(fn)
+
+
+for _i in range(nodes.N_TERM):
+    globals()[f"A{_i}"] = _mk_a(_i)
+
+
 def out_channel(node):
     return list(node.outputs)[0]
 
@@ -65,6 +103,8 @@ def build_level(owner, spec, macro_inputs=None):
             n = nodes.term_node(gid, label=label)
         elif nd["kind"] == "cterm":  # same function symbol, output needs cloudpickle
             n = globals()[f"C{gid}"](label=label)
+        elif nd["kind"] == "aterm":  # same function symbol, array-like output (no truth value under ==)
+            n = globals()[f"A{gid}"](label=label)
         elif nd["kind"] == "macro":
             SPEC_QUEUE.insert(0, nd["inner"])
             n = Mac8(label=label)
